@@ -282,6 +282,30 @@ class Interp:
             yield st, None
             return
         head, rest = stmts[0], stmts[1:]
+        # `a = Q.parent` directly followed by the walk `while a is not None: if a is X: raise ...; a = a.parent`
+        if rest and isinstance(rest[0], ast.While) and isinstance(head, ast.Assign) and len(head.targets) == 1 \
+                and isinstance(head.targets[0], ast.Name) and isinstance(head.value, ast.Attribute) and head.value.attr == "parent":
+            m = _match_ancestor_walk(rest[0])
+            if m is not None and m[0] == head.targets[0].id:
+                for s0, q, exc0 in self._ev(head.value.value, st, frame, head):
+                    if exc0:
+                        yield s0, ("raise", exc0)
+                        continue
+                    if not self._is_node_role(q):
+                        raise AnalysisError("ancestor walk from a non-node value in %s" % frame.func.where)
+                    for s1, ctl in self._stmt(head, s0, frame):
+                        if ctl is not None:
+                            yield s1, ctl
+                            continue
+                        for s2, ctl2 in self._ancestor_walk(rest[0], m, s1, frame, q):
+                            if ctl2 is not None:
+                                yield s2, ctl2
+                            elif rest[1:]:
+                                for r in self._block(rest[1:], s2, frame):
+                                    yield r
+                            else:
+                                yield s2, None
+                return
         for s1, ctl in self._stmt(head, st, frame):
             if ctl is not None:
                 yield s1, ctl
@@ -395,6 +419,14 @@ class Interp:
                     yield r
             return
         if isinstance(s, ast.For):
+            m = _match_inplace_removal(s)
+            if m is not None:
+                handled = False
+                for r in self._inplace_removal(s, m, st, frame):
+                    handled = True
+                    yield r
+                if handled:
+                    return
             for r in self._for(s, st, frame):
                 yield r
             return
@@ -425,6 +457,51 @@ class Interp:
             yield st, None
             return
         raise AnalysisError("unsupported statement %s in %s" % (type(s).__name__, func.where))
+
+    def _inplace_removal(self, s, m, st, frame):
+        """`for i, c in enumerate(L): if c is X: del L[i]; break` on a children list: the list without X (by identity),
+        edited in place - one event, no unrolling.  Yields nothing when L is not a children list (generic loop then)."""
+        l_expr, x_expr = m
+        res = list(self._ev_list([l_expr, x_expr], st, frame, s))
+        if not all(exc is None and roles[0][0] == "list_of" for _, roles, exc in res):
+            return
+        for s1, roles, exc in res:
+            s1 = s1.copy()
+            owner = roles[0][1]
+            s1.emit(Event("GUARD", frame.func, s, frame.id, name="identity-removal", a=roles[1], b=roles[0], outcome=True, text=norm(s.iter)))
+            self._list_write(s1, frame, s, owner, ("without", self.cur_list(s1, owner), roles[1]))
+            yield s1, None
+
+    def _walk_start(self, st, var):
+        """the node whose current parent the variable holds (`a = Q.parent` before the walk), or None"""
+        r = st.env.get(var)
+        if r is None:
+            return None
+        cands = [v for v in st.env.values() if isinstance(v, tuple) and v and self._is_node_role(v) and self.cur_parent(st, v) == r]
+        cands = sorted(set(cands), key=repr)
+        return cands[0] if len(cands) == 1 else None
+
+    def _ancestor_walk(self, s, m, st, frame, q):
+        """`while a is not None: if a is X: <raise>; a = a.parent` with a = Q.parent on entry: the identity scan of Q's
+        proper ancestors for X"""
+        var, x_expr, body = m
+        for s1, x, exc in self._ev(x_expr, st, frame, s):
+            if exc:
+                yield s1, ("raise", exc)
+                continue
+            start = s1.env.get(var)
+            empty = start == NONE or (start is not None and self.known_identity(s1, start, NONE) is True)
+            for v in ((False,) if empty else (True, False)):
+                s2 = s1.copy()
+                s2.emit(Event("GUARD", frame.func, s.test, frame.id, name="ancestor-scan", a=x, b=("properchain", q), outcome=v, text=norm(s.test)))
+                self.n_forks += 1
+                if v:
+                    for r in self._block(body, s2, frame):
+                        yield r
+                else:
+                    s2.env[var] = NONE
+                    for r in self._block(s.orelse, s2, frame):
+                        yield r
 
     def _for(self, s, st, frame):
         func = frame.func
@@ -586,6 +663,10 @@ class Interp:
                         s1.facts = (s1.facts - {("hasnot", recv, "children")}) | {("has", recv, "children")}
                     else:
                         self._list_write(s1, frame, stmt, recv, role)
+                    out.append((s1, None))
+                elif self._is_memo_field(mname):
+                    s1 = s1.copy()
+                    s1.emit(Event("MEMODROP", func, stmt, frame.id, recv=recv, name=t.attr, value=role))
                     out.append((s1, None))
                 else:
                     mem = self._member(t.attr) if self._is_node_role(recv) else None
@@ -754,6 +835,21 @@ class Interp:
                     s2 = s1.copy()
                     s2.emit(Event("GUARD", func, e, frame.id, name="ancestor-scan", a=roles[0], b=roles[1], outcome=v,
                                   text=norm(e)))
+                    self.n_forks += 1
+                    yield s2, v, None
+            return
+        # isinstance(X, <classes>) on a raw argument: the true outcome validates it as a node when a mixin is among the classes
+        if isinstance(e, ast.Call) and isinstance(e.func, ast.Name) and e.func.id == "isinstance" and len(e.args) == 2 \
+                and any(isinstance(c, ast.Name) and c.id in T.MIXINS for c in ast.walk(e.args[1])):
+            for s1, role, exc in self._ev(e.args[0], st, frame, stmt):
+                if exc:
+                    yield s1, None, exc
+                    continue
+                for v in (True, False):
+                    s2 = s1.copy()
+                    if v and role[0] == "arg":
+                        s2.facts = s2.facts | {("isnode", role)}
+                    s2.emit(Event("GUARD", func, e, frame.id, name="opaque", a=("unknown", norm(e)[:50]), b=None, outcome=v, text=norm(e)))
                     self.n_forks += 1
                     yield s2, v, None
             return
@@ -971,6 +1067,16 @@ class Interp:
         if recv[0] == "global":
             yield st, ("global", "%s.%s" % (recv[1], attr)), None
             return
+        if recv[0] == "arg" and ("isnode", recv) not in st.facts and self.known_identity(st, recv, NONE) is not True \
+                and not getattr(self, "_in_nonnode", False):
+            # a raw argument nobody has validated yet may be anything: on a non-node the first attribute access fails
+            # (an invalid argument in the sense of C03); on a node it succeeds and the argument is known to be one from here on
+            s2 = st.copy()
+            ev = Event("NONNODE", func, stmt, frame.id, text=norm(e), a=recv)
+            s2.emit(ev)
+            yield s2, None, Exc("AttributeError", "nonnode", ev)
+            st = st.copy()
+            st.facts = st.facts | {("isnode", recv)}
         if self._is_node_role(recv):
             mem = self._member(attr)
             if isinstance(mem, Prop) and mem.getter is not None:
@@ -1040,6 +1146,20 @@ class Interp:
                 r = self.p.resolve_name(func.module, name)
                 if r is not None and r[0] == "class" and self._is_exception_class(r[1].name):
                     yield s1, ("excobj", r[1].name), None
+                    continue
+                if r is not None and r[0] == "func" and len(roles) == 2 and not e.keywords and roles[0][0] == "list_of" \
+                        and _is_identity_removal_helper(r[1].node):
+                    # a helper that deletes ONE occurrence of its second argument (found by identity) from the list in place and
+                    # reports whether it did: on a children list this is the removal step of a detach
+                    owner = roles[0][1]
+                    s2 = s1.copy()
+                    s2.emit(Event("GUARD", func, stmt, frame.id, name="identity-removal", a=roles[1], b=roles[0], outcome=True, text=norm(e)))
+                    self._list_write(s2, frame, stmt, owner, ("without", self.cur_list(s2, owner), roles[1]))
+                    yield s2, ("const", "True"), None
+                    if self.cur_parent(s1, roles[1]) != owner and self.initial_parent(s1, roles[1]) != owner:
+                        s3 = s1.copy()
+                        s3.emit(Event("GUARD", func, stmt, frame.id, name="identity-removal", a=roles[1], b=roles[0], outcome=False, text=norm(e)))
+                        yield s3, ("const", "False"), None
                     continue
                 s2 = s1.copy()
                 ev = Event("UNKNOWNCALL", func, stmt, frame.id, text=norm(e.func))
@@ -1192,6 +1312,19 @@ class Interp:
         self._irr_cache[mem] = (irr, opaque)
         return self._irr_cache[mem]
 
+    def _memo_getter(self, mem):
+        from .memo import memo_getter_value
+        if not hasattr(self, "_memo_cache"):
+            self._memo_cache = {}
+        if mem not in self._memo_cache:
+            r = memo_getter_value(self.p, mem)
+            self._memo_cache[mem] = r[1] if r is not None else None
+        return self._memo_cache[mem]
+
+    def _is_memo_field(self, mname):
+        from .memo import memo_fields
+        return mname in memo_fields(self.p)
+
     def _call_member(self, mem, recv, args, st, frame, stmt):
         """Inline a member function of the class. yield (state, role, exc)."""
         func = frame.func
@@ -1224,6 +1357,12 @@ class Interp:
         if depth > 7:
             raise AnalysisError("inlining depth exceeded at %s" % mem.where)
         callee = self._frame(mem, frame, recv)
+        body = mem.body
+        mg = self._memo_getter(mem)
+        if mg is not None:
+            # a getter that caches its value in a memo field: equivalent to computing the value (coherence: C04 N8)
+            body = [ast.copy_location(ast.Return(value=mg), mem.node)]
+            ast.fix_missing_locations(body[0])
         s0 = st.copy()
         saved_env = s0.env
         env = {}
@@ -1233,7 +1372,7 @@ class Interp:
             env[p] = vals[i] if i < len(vals) else ("default", p)
         s0.env = env
         s0.emit(Event("ENTER", mem, stmt, callee.id, name=mem.qual, recv=recv, args=tuple(args), depth=depth))
-        for s1, ctl in self._block(mem.body, s0, callee):
+        for s1, ctl in self._block(body, s0, callee):
             s1 = s1.copy()
             s1.env = dict(saved_env)
             if ctl is None or ctl[0] == "return":
@@ -1258,6 +1397,111 @@ class Interp:
                     x, field = key
                     if field == "parent" and x[0] == "elem" and x[1] == v:
                         del st.store[key]
+
+
+def _match_inplace_removal(s):
+    """For statement `for i, c in enumerate(L): if c is X: del L[i]; break` -> (L expr, X expr)"""
+    if s.orelse or not (isinstance(s.iter, ast.Call) and isinstance(s.iter.func, ast.Name) and s.iter.func.id == "enumerate" and len(s.iter.args) == 1):
+        return None
+    t = s.target
+    if not (isinstance(t, ast.Tuple) and len(t.elts) == 2 and all(isinstance(x, ast.Name) for x in t.elts)):
+        return None
+    i, c = t.elts[0].id, t.elts[1].id
+    if len(s.body) != 1 or not isinstance(s.body[0], ast.If) or s.body[0].orelse:
+        return None
+    iff = s.body[0]
+    tst = iff.test
+    if not (isinstance(tst, ast.Compare) and len(tst.ops) == 1 and isinstance(tst.ops[0], ast.Is)):
+        return None
+    sides = [tst.left, tst.comparators[0]]
+    var = [x for x in sides if isinstance(x, ast.Name) and x.id == c]
+    oth = [x for x in sides if not (isinstance(x, ast.Name) and x.id == c)]
+    if len(var) != 1 or len(oth) != 1:
+        return None
+    b = iff.body
+    if len(b) != 2 or not isinstance(b[1], ast.Break) or not (isinstance(b[0], ast.Delete) and len(b[0].targets) == 1):
+        return None
+    d = b[0].targets[0]
+    if not (isinstance(d, ast.Subscript) and isinstance(d.slice, ast.Name) and d.slice.id == i and norm(d.value) == norm(s.iter.args[0])):
+        return None
+    return s.iter.args[0], oth[0]
+
+
+def _is_identity_removal_helper(fnode):
+    """f(lst, x): every mutation of lst is `lst.pop()` under `lst[-1] is x` or `del lst[i]` inside `for i, item in
+    enumerate(lst): if item is x:`, each directly followed by `return True`; every other return gives False/None; nothing
+    else has an effect"""
+    a = fnode.args
+    if a.vararg or a.kwarg or a.kwonlyargs or a.defaults or len(a.args) != 2:
+        return False
+    lst, x = a.args[0].arg, a.args[1].arg
+    body = [st for st in fnode.body if not (isinstance(st, ast.Expr) and isinstance(st.value, ast.Constant))]
+    n_mut = [0]
+
+    def is_x_test(t, elem_txts):
+        conj = t.values if isinstance(t, ast.BoolOp) and isinstance(t.op, ast.And) else [t]
+        for c in conj:
+            if isinstance(c, ast.Compare) and len(c.ops) == 1 and isinstance(c.ops[0], ast.Is):
+                sides = {norm(c.left), norm(c.comparators[0])}
+                if x in sides and sides & set(elem_txts):
+                    return True
+        return False
+
+    def ret_true(st):
+        return isinstance(st, ast.Return) and isinstance(st.value, ast.Constant) and st.value.value is True
+
+    def ok_block(stmts, elem_txts, idx):
+        for st in stmts:
+            if isinstance(st, ast.Return):
+                if not (st.value is None or (isinstance(st.value, ast.Constant) and st.value.value in (False, None))):
+                    return False
+            elif isinstance(st, ast.If) and not st.orelse:
+                if is_x_test(st.test, elem_txts):
+                    b = st.body
+                    if len(b) != 2 or not ret_true(b[1]):
+                        return False
+                    m = b[0]
+                    pop = isinstance(m, ast.Expr) and isinstance(m.value, ast.Call) and norm(m.value.func) == "%s.pop" % lst \
+                        and not m.value.args and "%s[-1]" % lst in elem_txts
+                    dele = isinstance(m, ast.Delete) and len(m.targets) == 1 and idx is not None and norm(m.targets[0]) == "%s[%s]" % (lst, idx)
+                    if not (pop or dele):
+                        return False
+                    n_mut[0] += 1
+                else:
+                    return False
+            elif isinstance(st, ast.For) and not st.orelse and isinstance(st.iter, ast.Call) and norm(st.iter) == "enumerate(%s)" % lst \
+                    and isinstance(st.target, ast.Tuple) and len(st.target.elts) == 2 and all(isinstance(v, ast.Name) for v in st.target.elts):
+                if not ok_block(st.body, [st.target.elts[1].id], st.target.elts[0].id):
+                    return False
+            else:
+                return False
+        return True
+    return ok_block(body, ["%s[-1]" % lst], None) and n_mut[0] >= 1
+
+
+def _match_ancestor_walk(s):
+    """While statement `while a is not None: if a is X: <body ending in raise/return>; a = a.parent` -> (a, X expr, body)"""
+    t = s.test
+    if not (isinstance(t, ast.Compare) and len(t.ops) == 1 and isinstance(t.ops[0], ast.IsNot) and isinstance(t.left, ast.Name)
+            and isinstance(t.comparators[0], ast.Constant) and t.comparators[0].value is None):
+        return None
+    a = t.left.id
+    if len(s.body) != 2 or not isinstance(s.body[0], ast.If) or s.body[0].orelse:
+        return None
+    iff, step = s.body
+    if not (isinstance(step, ast.Assign) and len(step.targets) == 1 and isinstance(step.targets[0], ast.Name) and step.targets[0].id == a
+            and isinstance(step.value, ast.Attribute) and step.value.attr == "parent" and isinstance(step.value.value, ast.Name)
+            and step.value.value.id == a):
+        return None
+    tst = iff.test
+    if not (isinstance(tst, ast.Compare) and len(tst.ops) == 1 and isinstance(tst.ops[0], ast.Is)):
+        return None
+    sides = [tst.left, tst.comparators[0]]
+    var = [x for x in sides if isinstance(x, ast.Name) and x.id == a]
+    oth = [x for x in sides if not (isinstance(x, ast.Name) and x.id == a)]
+    if len(var) != 1 or len(oth) != 1 or not iff.body or not isinstance(iff.body[-1], (ast.Raise, ast.Return)):
+        return None
+    return a, oth[0], iff.body
 
 
 def _is_generator_func(f):
